@@ -42,6 +42,10 @@ pub trait System {
     fn impl_fact_names(&self) -> Vec<&'static str> {
         vec![]
     }
+    /// Replay description of a path (used when a worker dies while executing it).
+    fn replay_of(&self, _path: &[Self::A]) -> Value {
+        json!({"engine": "none"})
+    }
     /// Worker processes close inherited descriptors so that numbering is reproducible.
     fn needs_clean_fds(&self) -> bool {
         false
@@ -410,7 +414,11 @@ fn exec_batch<S: System>(
                     violation: Some(Violation {
                         signature: format!("process-abort:{}", why.split(':').next().unwrap_or("")),
                         detail: format!("{} while executing path {:?}", why, path),
-                        replay: json!({"abort": why}),
+                        replay: {
+                            let mut r = sys.replay_of(&path);
+                            r["abort"] = json!(why);
+                            r
+                        },
                     }),
                 });
                 pending[w] = pending[w][done + 1..].to_vec();
